@@ -400,6 +400,14 @@ func (h *handler) processUnaryRpc(
 		if !ok {
 			st = status.FromContextError(appErr)
 		}
+		if st.Code() == codes.OK {
+			// We know an error *did* occur (its status just says OK), so re-write
+			// (only) the code, as the streaming path does: the caller must not
+			// see a failed call as a success.
+			stpb := st.Proto()
+			stpb.Code = int32(codes.Internal)
+			st = status.FromProto(stpb)
+		}
 		respStatus = &goatorepo.ResponseStatus{
 			Code:    st.Proto().GetCode(),
 			Message: st.Proto().GetMessage(),
